@@ -115,7 +115,17 @@ def gen_case(rng, force_shape=None):
             kind = rng.choice(["burn_eci", "burn_ntw"])
     # a second satellite burning over exactly the same interval (same event type), stored before or after this one's event
     twin = rng.choice(["before", "after"]) if rng.random() < 0.25 else None
-    return {"kind": "burn", "twin": twin, "start": start.isoformat(), "step": step, "n": n, "t_on": int(a), "t_off": int(b), "burn": kind, "vec": vec, "mag": rng.choice([-1, 1]) * mag, "second": second,
+    a, b = int(a), int(b)
+    impulse = None
+    if second is None and kind != "plane_change" and b - a >= 4 and a >= 16 and rng.random() < 0.25:
+        # an impulsive manoeuvre of the same satellite strictly inside the burn: the burn goes on after it
+        impulse = {"t": rng.randrange(a + 1, b - 1), "dv": [rng.choice([-1, 1]) * rng.uniform(1e-3, 1e-2) for _ in range(3)]}
+    if second is None and shape in ("inside", "spanning", "neither", "start_on", "end_on") and rng.random() < 0.3:
+        # switching times with a fractional second
+        fa, fb = rng.choice([0.4, 0.25, 0.6, 0.5]), rng.choice([0.6, 0.3, 0.75, 0.5])
+        if b + fb < total and (impulse is None or impulse["t"] > a + 1):
+            a, b = a + fa, b + fb
+    return {"kind": "burn", "impulse": impulse, "twin": twin, "start": start.isoformat(), "step": step, "n": n, "t_on": a, "t_off": b, "burn": kind, "vec": vec, "mag": rng.choice([-1, 1]) * mag, "second": second,
             "model": rng.choice(["special_perturbations", "special_perturbations", "special_perturbations", "two_body"]), "shape": shape,
             "orbit": [rng.choice([6900.0, 7300.0, 12000.0, 42164.0]), rng.uniform(0, 120), rng.uniform(0, 360), rng.uniform(0, 360)]}
 
@@ -135,13 +145,16 @@ def build_cfg(case):
         ev = {"scope": "agent_propagation", "scope_instance_id": TID, "start_time": sk.iso(t1), "end_time": sk.iso(t2), "event_type": "finite_maneuver",
               "maneuver_mag": case["mag"], "maneuver_type": case["burn"], "planned": False}
     evs = [ev]
+    if case.get("impulse"):
+        evs.append({"scope": "agent_propagation", "scope_instance_id": TID, "start_time": sk.iso(start + timedelta(seconds=case["impulse"]["t"])), "event_type": "impulse",
+                    "thrust_vector": case["impulse"]["dv"], "thrust_frame": "eci", "planned": False})
     if case.get("twin"):
         r2, v2 = sk.circ_state(case["orbit"][0] + 500.0, 40.0, 10.0, 200.0)
         tg.append(sk.target_cfg(TID + 1, r2, v2))
         ev2 = dict(ev, scope_instance_id=TID + 1)
         if "acc_vector" in ev2:
             ev2["acc_vector"] = [0.5 * c for c in reversed(ev["acc_vector"])]
-        evs = [ev2, ev] if case["twin"] == "before" else [ev, ev2]
+        evs = [ev2, *evs] if case["twin"] == "before" else [*evs, ev2]
     if case.get("second"):
         s2 = case["second"]
         evs.append({"scope": "agent_propagation", "scope_instance_id": TID, "start_time": sk.iso(start + timedelta(seconds=s2["t_on"])),
@@ -216,8 +229,14 @@ def reference(case, dyn, x0, t_final):
                     else:
                         cur = tb
             else:
-                sol = solve_ivp(f, (ta, tb), x, method="DOP853", rtol=1e-12, atol=1e-12)
-                x = sol.y[:, -1]
+                imp = case.get("impulse")
+                if imp and ta < float(imp["t"]) <= tb:
+                    sol = solve_ivp(f, (ta, float(imp["t"])), x, method="DOP853", rtol=1e-12, atol=1e-12)
+                    x = sol.y[:, -1] + np.concatenate([np.zeros(3), np.array(imp["dv"], dtype=float)])
+                    ta = float(imp["t"])
+                if tb > ta:
+                    sol = solve_ivp(f, (ta, tb), x, method="DOP853", rtol=1e-12, atol=1e-12)
+                    x = sol.y[:, -1]
     finally:
         dyn.finite_thrust = old
     return x
@@ -288,7 +307,8 @@ def eval_case(ctx, case):
     dyn_thrust = copy.deepcopy(dyn)
     dyn.finite_thrust = None
     coast_repo = np.asarray(dyn.propagate(0.0, float(t_final), np.array(x0, dtype=float)), dtype=float)
-    e_r, e_v = float(np.linalg.norm(coast_repo[:3] - coast[:3])), float(np.linalg.norm(coast_repo[3:] - coast[3:]))
+    coast_free = coast if not case.get("impulse") else reference({**case, "t_on": t_final + 1, "t_off": t_final + 2, "second": None, "impulse": None}, dyn, x0, t_final)
+    e_r, e_v = float(np.linalg.norm(coast_repo[:3] - coast_free[:3])), float(np.linalg.norm(coast_repo[3:] - coast_free[3:]))
     # a Julian date resolves ~40 us, so thrust may legitimately switch up to ~5e-5 s off its configured times
     # (twice: start and end); orbital dynamics amplify the resulting velocity offset by a small factor
     amag = float(np.linalg.norm(case["vec"])) if case["burn"].startswith("burn") else abs(case["mag"])
@@ -331,6 +351,8 @@ def eval_case(ctx, case):
         key = f"burn-ignored-{case['model']}"
     elif case.get("second"):
         key = "burn-trajectory-abutting-burns"
+    elif case.get("impulse"):
+        key = "burn-trajectory-impulse-inside-burn"
     elif case["shape"] == "before_epoch":
         key = "burn-trajectory-started-before-epoch"
     elif case["shape"] in ("at_epoch", "dyadic"):
